@@ -263,3 +263,112 @@ Section TrailingComment.
     destruct (parse_stmt (drop_last (code_of code))) as [r| | |]; cbn [bind]; try reflexivity.
   Qed.
 End TrailingComment.
+
+(* ---------- C03 / C05: a statement laid out over several lines ----------------------------------------------------------------------------- *)
+Section MultiLine.
+  Variable parse_stmt : string -> res (option pyval).
+
+  (* a line of code without comment markers, not skipped, not a SET line, not empty: conditions on the line alone *)
+  Record code_line (l l' : string) : Prop := {
+    cl_sub : re_sub RegexAst.re_equal_without_space " = " l = Ok l';
+    cl_not_comment : (startswith (strip l') MYSQL_COM || startswith (strip l') IN_COM) = false;
+    cl_no_inline : contains l' IN_COM = false;
+    cl_no_close : contains l' CL_COM = false;
+    cl_no_open : contains l' OP_COM = false;
+    cl_not_skipped : re_match_b RegexAst.re_skip_regex (upper (code_of l')) = Ok false;
+    cl_not_set : re_match_b RegexAst.re_set_statement (upper (code_of l')) = Ok false;
+    cl_nonempty : String.eqb (code_of l') "" = false
+  }.
+  Definition starts_statement (l' : string) : bool := existsb (fun k => startswith (upper (code_of l')) k) new_statement_tokens.
+  (* the machine while a statement is being collected *)
+  Definition collecting (st : option string) : lm := mkLM st None false false [].
+  Definition joined (st : option string) (code : string) : string := match st with None => code | Some s => s ++ " " ++ code end.
+
+  Lemma pre_code_line l l' st : code_line l l' -> pre_process_line (collecting st) l = Ok (l', false, [], []).
+  Proof.
+    intros [Hsub Hnc Hin Hcl Hop _ _ _]. unfold pre_process_line. rewrite Hsub. cbn [bind multi_line_comment collecting]. rewrite Hnc. cbn [negb bind].
+    rewrite Hin, Hcl, Hop. cbn [negb andb bind block_comments collecting]. rewrite Hcl. cbn [andb bind].
+    rewrite (startswith_false_of_contains l' OP_COM Hop) by discriminate.
+    rewrite (startswith_false_of_contains l' CL_COM Hcl) by discriminate. reflexivity.
+  Qed.
+
+  (* a line that does not end the statement: its code is appended, separated by one blank; nothing is parsed, nothing emitted *)
+  Lemma continuation_line l l' st : code_line l l' -> endswith (code_of l') ";" = false ->
+    (st = None \/ starts_statement l' = false) ->
+    process_line parse_stmt (collecting st) l true = Ok (collecting (Some (joined st (code_of l'))), ([], [])).
+  Proof.
+    intros Hc Hend Hns. unfold process_line. rewrite (pre_code_line l l' st Hc). cbn [bind]. fold (code_of l').
+    destruct Hc as [_ _ _ _ _ Hsk Hset Hne]. rewrite Hsk, Hset. cbn [bind set_line set_was_in_line statement collecting].
+    rewrite Hend. cbn [andb orb]. rewrite Hne. cbn [negb andb].
+    assert (Hnew : match st with
+                   | Some s => negb (String.eqb s "") && Nat.eqb (count s "(") (count s ")")
+                               && existsb (fun k => startswith (upper (code_of l')) k) new_statement_tokens
+                   | None => false end = false).
+    { destruct st as [s|]; [|reflexivity]. destruct Hns as [Hns|Hns]; [discriminate|]. unfold starts_statement in Hns. rewrite Hns. apply andb_false_r. }
+    rewrite Hnew. cbn [negb andb orb]. destruct st as [s|]; reflexivity.
+  Qed.
+
+  (* the line that ends it: the collected text, without the ';', goes to the parser; the machine is back in its initial state *)
+  Lemma closing_line l l' st not_last : code_line l l' -> endswith (code_of l') ";" = true ->
+    (st = None \/ starts_statement l' = false) -> String.eqb (drop_last (joined st (code_of l'))) "" = false ->
+    process_line parse_stmt (collecting st) l not_last =
+    (do r <- parse_stmt (drop_last (joined st (code_of l'))); Ok (lm0, (entities_of r, []))).
+  Proof.
+    intros Hc Hend Hns Hb. unfold process_line. rewrite (pre_code_line l l' st Hc). cbn [bind]. fold (code_of l').
+    destruct Hc as [_ _ _ _ _ Hsk Hset Hne]. rewrite Hsk, Hset. cbn [bind set_line set_was_in_line statement collecting].
+    rewrite Hend. cbn [negb andb orb]. rewrite Hne. cbn [negb andb].
+    assert (Hnew : match st with
+                   | Some s => negb (String.eqb s "") && Nat.eqb (count s "(") (count s ")")
+                               && existsb (fun k => startswith (upper (code_of l')) k) new_statement_tokens
+                   | None => false end = false).
+    { destruct st as [s|]; [|reflexivity]. destruct Hns as [Hns|Hns]; [discriminate|]. unfold starts_statement in Hns. rewrite Hns. apply andb_false_r. }
+    rewrite Hnew. cbn [negb andb orb].
+    assert (Hj : nonempty (Some (joined st (code_of l'))) = true).
+    { unfold nonempty, joined. destruct st as [s|]; [|rewrite Hne; reflexivity].
+      destruct s; cbn; [reflexivity|reflexivity]. }
+    assert (E : (match st with None => Some (code_of l') | Some s => Some (s ++ " " ++ code_of l')%string end) = Some (joined st (code_of l')))
+      by (destruct st; reflexivity).
+    rewrite E, Hj. cbn [orb andb]. cbn [nonempty]. rewrite Hb. cbn [negb andb bind].
+    destruct (parse_stmt (drop_last (joined st (code_of l')))) as [r| | |]; cbn [bind]; reflexivity.
+  Qed.
+
+  (* k continuation lines followed by the closing line: the statement handed to the parser is the codes of the lines joined by
+     single blanks, whatever the line breaks and the indentation were *)
+  Fixpoint join_codes (st : option string) (ls : list (string * string)) : option string :=
+    match ls with [] => st | (_, l') :: r => join_codes (Some (joined st (code_of l'))) r end.
+
+  Theorem statement_over_lines : forall (body : list (string * string)) st l l' more,
+    Forall (fun p => code_line (fst p) (snd p) /\ endswith (code_of (snd p)) ";" = false /\ starts_statement (snd p) = false) body ->
+    code_line l l' -> endswith (code_of l') ";" = true -> starts_statement l' = false ->
+    String.eqb (drop_last (joined (join_codes st body) (code_of l'))) "" = false ->
+    run_lines parse_stmt (collecting st) (map fst body ++ [l]) more =
+    (do r <- parse_stmt (drop_last (joined (join_codes st body) (code_of l'))); Ok (lm0, (entities_of r, []))).
+  Proof.
+    induction body as [|[b b'] r IH]; intros st l l' more Hb Hc Hend Hns Hne.
+    - cbn [map app run_lines join_codes] in *. rewrite (closing_line l l' st _ Hc Hend (or_intror Hns) Hne).
+      destruct (parse_stmt (drop_last (joined st (code_of l')))) as [x| | |]; cbn [bind]; try reflexivity. rewrite app_nil_r. reflexivity.
+    - inversion Hb as [|? ? [H1 [H2 H3]] Hr]; subst. cbn [fst snd] in *. cbn [join_codes].
+      change (map fst ((b, b') :: r) ++ [l])%list with (b :: (map fst r ++ [l]))%list.
+      remember (map fst r ++ [l])%list as rest eqn:Erest. cbn [run_lines].
+      assert (Hmore : match rest with [] => more | _ :: _ => true end = true) by (subst rest; destruct (map fst r); reflexivity).
+      rewrite Hmore. rewrite (continuation_line b b' st H1 H2 (or_intror H3)). cbn [bind]. subst rest.
+      rewrite (IH (Some (joined st (code_of b'))) l l' more Hr Hc Hend Hns Hne).
+      destruct (parse_stmt _) as [x| | |]; cbn [bind]; reflexivity.
+  Qed.
+End MultiLine.
+
+(* two layouts of one statement whose line codes join to the same text give the same result *)
+Corollary layout_invariance parse_stmt : forall body1 l1 l1' body2 l2 l2' more1 more2,
+  Forall (fun p => code_line (fst p) (snd p) /\ endswith (code_of (snd p)) ";" = false /\ starts_statement (snd p) = false) body1 ->
+  Forall (fun p => code_line (fst p) (snd p) /\ endswith (code_of (snd p)) ";" = false /\ starts_statement (snd p) = false) body2 ->
+  code_line l1 l1' -> endswith (code_of l1') ";" = true -> starts_statement l1' = false ->
+  code_line l2 l2' -> endswith (code_of l2') ";" = true -> starts_statement l2' = false ->
+  joined (join_codes None body1) (code_of l1') = joined (join_codes None body2) (code_of l2') ->
+  String.eqb (drop_last (joined (join_codes None body1) (code_of l1'))) "" = false ->
+  run_lines parse_stmt lm0 (map fst body1 ++ [l1]) more1 = run_lines parse_stmt lm0 (map fst body2 ++ [l2]) more2.
+Proof.
+  intros body1 l1 l1' body2 l2 l2' more1 more2 B1 B2 C1 E1 S1 C2 E2 S2 J N.
+  change lm0 with (collecting None).
+  rewrite (statement_over_lines parse_stmt body1 None l1 l1' more1 B1 C1 E1 S1 N).
+  rewrite J in N. rewrite (statement_over_lines parse_stmt body2 None l2 l2' more2 B2 C2 E2 S2 N). rewrite J. reflexivity.
+Qed.
